@@ -19,7 +19,9 @@ func (f *syntaxAggregateFunction) retrieve(
 		return err
 	}
 
-	result := values.result
+	// values.result is a pooled buffer that is recycled after this call and
+	// the user function may keep its argument, so it gets a private copy.
+	result := append([]interface{}(nil), values.result...)
 	if !f.param.isValueGroup() {
 		if arrayParam, ok := values.result[0].([]interface{}); ok {
 			result = arrayParam
